@@ -274,7 +274,7 @@ func c17(r *core.Run) {
 									})
 								return rel == "<"
 							}
-							bad := core.PathExists(fn, p.PassEdges(fn, g), st, nil)
+							bad := p.ReachesUnguarded(fn, st, g)
 							r.Check(!bad, "C17/R3", core.FnName(fn)+":append-below-limit", p.InstrPos(st), "append behind Cmp(len(Proofs) < MaxProofs)", "a prover can be appended beyond the file's replication limit")
 						}
 					}
@@ -324,7 +324,7 @@ func c17(r *core.Run) {
 						r.Check(ct == at && ct != "", "C17/R3", core.FnName(caller)+":contains-key=appended-key", p.InstrPos(call), "membership test and append use the same key term", "the prover list is tested for one key ("+ct+") but another ("+at+") is appended: the same prover can be listed twice under two spellings")
 					}
 					lifted := p.LiftGuard(func(*ssa.Function) core.GuardMatch { return g }, 2)(caller)
-					bad := core.PathExists(caller, p.PassEdges(caller, anyOf(g, p.FlagImplies(caller, anyOf(g, lifted)), lifted)), call, nil)
+					bad := p.ReachesUnguarded(caller, call, anyOf(g, p.FlagImplies(caller, anyOf(g, lifted)), lifted))
 					r.Check(!bad, "C17/R3", core.FnName(caller)+":append-only-if-absent", p.InstrPos(call), "appender call behind containsProver(...)=false", "a prover can be appended to a file that already lists it (duplicate entry)")
 				}
 			}
